@@ -385,6 +385,10 @@ def judge_enum(ctx, info, script, toks):
     bad = []
     lenient_seen = set()
     conversions = 0
+    baseline = {}
+
+    def hidden(name):
+        return name.startswith(PREFIX) or name.upper().startswith(PREFIX)
 
     def add(sig, desc, i):
         bad.append(('C17/' + sig, '%s: %s (operation %d `%s` of script %s, after %d conversions) -> %s'
@@ -421,34 +425,35 @@ def judge_enum(ctx, info, script, toks):
             elif not t.startswith('!'):
                 add(site + ('/accepts-unknown-seen-before' if v in lenient_seen else '/accepts-unknown'),
                     'strict conversion of the undefined value %d is not refused' % v, i)
-        elif k == 'i':
-            if t != info.iter:
-                add('iter/changed-after-conversions' if conversions else 'iter/differs-from-definition',
-                    'list(E) is [%s], the defined members are [%s]' % (t[:300], info.iter[:300]), i)
-        elif k == 'l':
-            if t != str(info.len):
-                add('len/changed-after-conversions' if conversions else 'len/differs-from-definition',
-                    'len(E) is %s, %d members are defined' % (t, info.len), i)
-        elif k in 'gn':
+        elif k in 'il' or (k in 'gn' and not hidden(op[1:])):
+            # history independence: the answer must be the one the fresh class gave to the same question in this script
+            # (before any conversion).  Whether the fresh answers follow the definition is the model's business.
             name = op[1:]
-            up = name.upper()
-            site = 'getitem' if k == 'g' else 'call-by-name'
-            if name in info.byname or up in info.byname:
-                want = info.member(info.byname[name] if name in info.byname else info.byname[up])
+            site = {'i': 'iter', 'l': 'len', 'g': 'getitem', 'n': 'call-by-name'}[k]
+            if conversions == 0:
+                baseline.setdefault(op, t)
+            elif op in baseline:
+                if t != baseline[op]:
+                    what = {'i': 'list(E)', 'l': 'len(E)'}.get(k, 'lookup of %s name %r' %
+                                                             ('the defined' if name in info.byname else 'the', name))
+                    feature = {'i': 'changed-after-conversions', 'l': 'changed-after-conversions'}.get(
+                        k, 'defined-name-changed' if name in info.byname or name.upper() in info.byname else
+                        ('absent-name-resolves-after-conversions' if baseline[op].startswith('!') else 'name-lookup-changed'))
+                    add(site + '/' + feature, '%s was %s on the fresh class and is %s' % (what, baseline[op][:200], t[:200]), i)
+            elif k in 'gn' and (name in info.byname or name.upper() in info.byname):
+                want = info.member(info.byname[name] if name in info.byname else info.byname[name.upper()])
                 if t != want:
-                    add(site + ('/defined-name-changed' if conversions else '/defined-name-wrong'),
-                        'lookup of the defined name %r is not %s' % (name, want), i)
-            elif not name.startswith(PREFIX) and not up.startswith(PREFIX):
-                if not t.startswith('!'):
-                    add(site + ('/absent-name-resolves-after-conversions' if conversions else '/absent-name-resolves'),
-                        'lookup of the absent name %r succeeds' % name, i)
-            else:
-                # a hidden name: `E['_U_3']` resolves once 3 has been converted leniently.  Not a defined name and not
-                # an ordinary absent one; recorded, judged by the correspondence with the model only (see the report).
-                if not t.startswith('!'):
-                    ctx.count('hidden_name_lookup_resolves' if k == 'g' else 'hidden_name_strict_call_accepted')
-                elif k == 'g':
-                    ctx.count('hidden_name_lookup_keyerror')
+                    add(site + '/defined-name-changed', 'lookup of the defined name %r is not %s' % (name, want), i)
+            elif k in 'gn' and not t.startswith('!'):
+                add(site + '/absent-name-resolves-after-conversions', 'lookup of the absent name %r succeeds' % name, i)
+        elif k in 'gn':
+            # a hidden name: `E['_U_3']` resolves once 3 has been converted leniently.  Not a defined name and not an
+            # ordinary absent one: recorded, and judged by the correspondence with the model only (theorem
+            # C17_lookup_changes_only_hidden says this is the only kind of lookup that can move).
+            if not t.startswith('!'):
+                ctx.count('hidden_name_lookup_resolves' if k == 'g' else 'hidden_name_strict_call_accepted')
+            elif k == 'g':
+                ctx.count('hidden_name_lookup_keyerror')
     return bad
 
 
@@ -523,6 +528,7 @@ def run_scripts(ctx, infos, scripts):
     by = {i.q: i for i in infos}
     results = run_forked(scripts, nproc=6 if ctx.thorough else 4)
     lines, pend = [], []
+    reported = set(sig for sig, _, _ in ctx.violations)
     for sc, r in zip(scripts, results):
         if 'infra' in r:
             raise fv.InfraError('worker failed on %s: %s' % (sc.get('enum'), r['infra']))
@@ -534,14 +540,17 @@ def run_scripts(ctx, infos, scripts):
             ctx.count('enum_scripts_' + sc['label'])
             ctx.count('enum_operations', len(sc['ops']))
             if sc['oracle']:
-                seen = set()
                 for sig, desc, i in judge_enum(ctx, info, sc, r):
-                    if sig not in seen:
-                        seen.add(sig)
-                        ctx.violation(sig, desc, {'script': shrink_enum(info, sc, i)})
+                    ctx.count('violations_seen')
+                    if sig not in reported:         # one (shrunk) replay per signature
+                        reported.add(sig)
+                        ctx.violation(sig, desc, {'script': shrink_enum(ctx, info, sc, i, sig)})
         else:
             for sig, desc, rp in judge_mask(ctx, sc, r, lines, pend):
-                ctx.violation(sig, desc, rp if rp is not None else {'script': dict(sc, subsets=sc['subsets'][:1])})
+                ctx.count('violations_seen')
+                if sig not in reported:
+                    reported.add(sig)
+                    ctx.violation(sig, desc, rp if rp is not None else {'script': dict(sc, subsets=sc['subsets'][:1])})
     outs = ctx.driver(lines)
     for (kind, got, a, b), mo in zip(pend, outs):
         ctx.cov['traces_validated_against_impl'] += 1
@@ -555,7 +564,8 @@ def run_scripts(ctx, infos, scripts):
                 ctx.disagree('%s (%s): operation %d `%s`: real class %s, model %s' %
                              (info.q, sc['label'], j, sc['ops'][j] if j < len(sc['ops']) else '?',
                               it[j][:80] if j < len(it) else '-', mt[j][:80] if j < len(mt) else '-'),
-                             {'script': shrink_enum(info, sc, j)})
+                             {'script': shrink_enum(ctx, info, sc, min(j, len(sc['ops']) - 1))
+                              if len(ctx.disagreements) < 3 else dict(sc, ops=sc['ops'][:j + 1][-400:])})
             elif len(ctx.cov['samples']) < 4 and sc['label'] in ('wide-boundary-random', 'string-path'):
                 ctx.sample({'enum': info.q, 'ops': sc['ops'][-12:], 'real_and_model': got[-12:]})
         else:
@@ -563,32 +573,43 @@ def run_scripts(ctx, infos, scripts):
                 ctx.disagree('%s %s: real %s, model %s' % (b, kind, str(got)[:80], mo[:80]), a)
 
 
-def shrink_enum(info, sc, i):
-    """A short script that still ends in the offending operation: the lenient conversions before it + that operation."""
+class _NoCount:
+    def count(self, *a, **k):
+        pass
+
+
+def shrink_enum(ctx, info, sc, i, sig=None):
+    """A short script that still fails in the same way at its last operation: [the same question on the fresh class]
+    + some of the lenient conversions before it (halved greedily) + the offending operation.  `sig` = the oracle
+    signature to preserve, or None to preserve a disagreement with the model."""
     ops = sc['ops'][:i + 1]
+    last = ops[-1]
+    head = [last] if last[0] in 'ilgn' else []
     keep = [o for o in ops[:-1] if o[0] in 'caN']
-    small = dict(sc, ops=keep + [ops[-1]], label=sc['label'] + '/shrunk')
+
+    def fails(body):
+        cand = dict(sc, ops=head + body + [last])
+        r = run_forked([cand], 1)[0].get('ok')
+        if not r:
+            return False
+        if sig is not None:
+            return any(s == sig and j == len(cand['ops']) - 1 for s, _, j in judge_enum(_NoCount(), info, cand, r))
+        return ctx.driver([model_line(info, cand)])[0].split(';')[-1] != r[-1]
     try:
-        r = run_forked([small], 1)[0].get('ok')
-        full = run_forked([dict(sc, ops=ops)], 1)[0].get('ok')
-        if r and full and r[-1] == full[-1]:
-            # drop conversions that do not matter, greedily, a bounded number of times
-            cur = small['ops']
-            for _ in range(12):
-                if len(cur) <= 1:
+        if fails(keep):
+            cur = keep
+            for _ in range(20):
+                if not cur:
                     break
-                half = cur[len(cur) // 2:-1] + [cur[-1]]
-                rr = run_forked([dict(sc, ops=half)], 1)[0].get('ok')
-                if rr and rr[-1] == full[-1]:
-                    cur = half
-                    continue
-                half = cur[:len(cur) // 2] + [cur[-1]]
-                rr = run_forked([dict(sc, ops=half)], 1)[0].get('ok')
-                if rr and rr[-1] == full[-1]:
-                    cur = half
-                    continue
-                break
-            return dict(sc, ops=cur, label=sc['label'] + '/shrunk')
+                if fails(cur[len(cur) // 2:]):
+                    cur = cur[len(cur) // 2:]
+                elif fails(cur[:len(cur) // 2]):
+                    cur = cur[:len(cur) // 2]
+                elif len(cur) > 2 and fails(cur[:-1]):
+                    cur = cur[:-1]
+                else:
+                    break
+            return dict(sc, ops=head + cur + [last], label=sc['label'] + '/shrunk')
     except fv.InfraError:
         pass
     return dict(sc, ops=ops)
